@@ -169,14 +169,89 @@ func ThroughHelper(v ssa.Value) ssa.Value {
 			return v
 		}
 		rs := returnsOf(g)
-		if len(rs) != 1 || idx >= len(rs[0].Results) {
+		if len(rs) == 0 {
 			return v
 		}
-		r := rs[0].Results[idx]
-		if srcs := resolveLocal(r); len(srcs) == 1 {
-			r = srcs[0]
+		var r ssa.Value
+		for _, ret := range rs {
+			if idx >= len(ret.Results) {
+				return v
+			}
+			x := ret.Results[idx]
+			if srcs := resolveLocal(x); len(srcs) == 1 {
+				x = srcs[0]
+			}
+			if r == nil {
+				r = x
+			} else if r != x {
+				return v // different values on different exits
+			}
 		}
 		v = r
 	}
 	return v
+}
+
+// FuncOfValue resolves a function-typed value to the module function it denotes: a function literal, a named function,
+// or a bound method value (the synthetic wrapper is looked through).
+func FuncOfValue(v ssa.Value) *ssa.Function {
+	v = unwrap(v)
+	var f *ssa.Function
+	switch x := v.(type) {
+	case *ssa.MakeClosure:
+		f, _ = x.Fn.(*ssa.Function)
+	case *ssa.Function:
+		f = x
+	}
+	if f == nil {
+		return nil
+	}
+	if f.Synthetic != "" {
+		// bound method wrapper / thunk: the one static call inside
+		for _, b := range f.Blocks {
+			for _, in := range b.Instrs {
+				if c, ok := in.(ssa.CallInstruction); ok {
+					if g := c.Common().StaticCallee(); g != nil && InModule(g) {
+						return g
+					}
+				}
+			}
+		}
+		return nil
+	}
+	return f
+}
+
+// ValueReferrers lists the module functions that use fn as a value (pass it as a callback, store it), directly or as a
+// bound method value.
+func (p *Prog) ValueReferrers(fn *ssa.Function) []*ssa.Function {
+	var out []*ssa.Function
+	seen := map[*ssa.Function]bool{}
+	for _, f := range p.AllFuncs {
+		for _, b := range f.Blocks {
+			for _, in := range b.Instrs {
+				var ops [12]*ssa.Value
+				for _, op := range in.Operands(ops[:0]) {
+					if op == nil || *op == nil {
+						continue
+					}
+					if _, isCall := in.(ssa.CallInstruction); isCall {
+						if cc := in.(ssa.CallInstruction).Common(); cc.Value == *op {
+							if _, isMC := (*op).(*ssa.MakeClosure); !isMC {
+								continue // the callee position of a static call is a call, not a value use
+							}
+						}
+					}
+					if g := FuncOfValue(*op); g == fn && !seen[f] {
+						if _, isMC := in.(*ssa.MakeClosure); isMC && in.(*ssa.MakeClosure).Fn == ssa.Value(fn) {
+							continue // creation of fn's own closure is not a use by itself; its consumer is
+						}
+						seen[f] = true
+						out = append(out, f)
+					}
+				}
+			}
+		}
+	}
+	return out
 }
